@@ -1087,7 +1087,8 @@ pub fn run(ctx: &Ctx) {
         }
         // the first configuration again with every drop placed on an unwinding thread
         if ci == 0 {
-            for ops in &all {
+            // (thorough: every third history - the tier also runs everything in both build profiles)
+            for ops in all.iter().step_by(if ctx.tier_thorough { 3 } else { 1 }) {
                 emit(&mut out, seq_case_unwinding(ops));
                 out.count("histories_with_drops_during_unwind");
             }
@@ -1095,15 +1096,15 @@ pub fn run(ctx: &Ctx) {
         // ... and inside the destructor of another entry (a carrier owning the object; emitted by its owner, its last
         // flush guard or a force-flush guard)
         if ci == 0 {
-            for (i, ops) in all.iter().enumerate().step_by(if ctx.tier_thorough { 1 } else { 2 }) {
-                emit(&mut out, seq_case_nested(ops, 1 + (i / 2 % 3) as u8));
+            for (i, ops) in all.iter().enumerate().step_by(if ctx.tier_thorough { 3 } else { 2 }) {
+                emit(&mut out, seq_case_nested(ops, 1 + (i / if ctx.tier_thorough { 3 } else { 2 } % 3) as u8));
                 out.count("histories_with_drops_inside_another_entrys_destructor");
             }
         }
         // ... and the histories that never poll wait_for_data (a future may answer Pending without budget) inside a
         // tokio task whose cooperative budget is exhausted
         if ci <= 1 {
-            for ops in all.iter().filter(|o| !o.iter().any(|x| matches!(x, Op::WaitPoll(_)))).step_by(if ctx.tier_thorough { 1 } else { 3 }) {
+            for ops in all.iter().filter(|o| !o.iter().any(|x| matches!(x, Op::WaitPoll(_)))).step_by(3) {
                 emit(&mut out, seq_case_no_budget(ops));
                 out.count("histories_in_a_tokio_task_without_budget");
             }
